@@ -351,6 +351,11 @@ func (a *Analysis) store(st *funcState, addr ssa.Value, val Set, pos token.Pos) 
 		key, stt := structKey(bt)
 		if stt != nil {
 			c := a.fieldCell(stt, key, x.Field)
+			// a store into a field of an object that was not just created here is a state change
+			// that outlives the function (used by the log-region rule of C13)
+			if _, fresh := x.X.(*ssa.Alloc); !fresh {
+				a.addEffect(st, &Effect{Kind: "fieldwrite", Target: -1, Cell: a.fieldWriteCell(key, stt.Field(x.Field).Name()), Field: key + "." + stt.Field(x.Field).Name(), Pos: pos, Fn: st.fn, What: "store into a struct field"})
+			}
 			a.cellWrite(st, c, val, pos)
 			ft := stt.Field(x.Field).Type()
 			if _, isStruct := ft.Underlying().(*types.Struct); isStruct && trackedType(ft) == "" {
@@ -674,6 +679,15 @@ func (a *Analysis) transfer(st *funcState, in ssa.Instruction) {
 				a.mod(st, a.glob(a.labels[l].Glob), "map entry", nil, x.Pos(), "update of a map reachable from a package-level variable")
 			}
 		}
+		if ld, ok := x.Map.(*ssa.UnOp); ok {
+			if fa, ok := ld.X.(*ssa.FieldAddr); ok {
+				if key, stt := structKey(derefType(fa.X.Type())); stt != nil && trackedType(derefType(fa.X.Type())) == "" {
+					if _, fresh := fa.X.(*ssa.Alloc); !fresh {
+						a.addEffect(st, &Effect{Kind: "fieldwrite", Target: -1, Cell: a.fieldWriteCell(key, stt.Field(fa.Field).Name()), Field: key + "." + stt.Field(fa.Field).Name() + "[]", Pos: x.Pos(), Fn: st.fn, What: "update of a map held in a struct field"})
+					}
+				}
+			}
+		}
 		a.writeInto(st, x.Map, v, x.Pos(), 0)
 	case *ssa.Send:
 		a.writeInto(st, x.Chan, a.get(st, x.X), x.Pos(), 0)
@@ -900,6 +914,8 @@ func (a *Analysis) apply(st *funcState, site ssa.CallInstruction, callee *ssa.Fu
 			}
 		case "cellwrite":
 			a.cellWriteVia(st, e, val, site, once)
+		case "fieldwrite":
+			a.addEffect(st, &Effect{Kind: "fieldwrite", Target: -1, Cell: e.Cell, Field: e.Field, Pos: e.Pos, Fn: e.Fn, Via: e, Site: site.Pos(), SiteFn: st.fn, What: e.What})
 		case "ptrwrite":
 			for t := range a.subst(st, callee, args, Set{e.Target: {}}) {
 				li := a.labels[t]
